@@ -430,3 +430,33 @@ def c09_m_offset_debug_fields(o):
     o.claim("always_ok", ok)
     o.claim("seconds_printed_iff_non_zero", z3.And(short[0][0] == (a % 60 == 0), full[0][0] == (a % 60 != 0)))
     o.claim("sign_hours_minutes_seconds", z3.And(*[z3.Implies(site[0][0], z3.And(*[x[1] == w for x, w in zip(site, want)])) for site in (short, full)]))
+
+
+@obligation(prop="C09", tier="quick", timeout=600, probe="date_debug_ok",
+            desc="Debug / Display of NaiveDate (the default text form of dates), the values it prints (text abstracted): for years 0..=9999 the digit pairs year/100 and year%100, otherwise the year itself through the signed width-5 integer format (ISO 8601 explicit sign, so +10000 cannot be confused with 1000 followed by 0); then the month and the day of the date's month/day decomposition as digit pairs",
+            bounds="all dates; the Formatter sink is abstract (values handed to it are recorded); Mdf month()/day() are contract values in 1..=12 / 1..=31 (K:c01_* ties them to the calendar)",
+            outside="digit rendering (core::fmt, write_hundreds), the reader (K: c09_date_y4 in the thorough tier)")
+def c09_m_date_debug_fields(o):
+    rec = recording_sink(o)
+    o.summarize_raw(r"^write_hundreds::<Formatter<'_>>$", [fn for rx, fn in o.ex.raw_summaries if "write_hundreds" in rx][0])
+    o.summarize_raw(r"Formatter(::)?<'_>(::| as std::fmt::Write>::| as Write>::)write_(char|str|fmt)$", lambda ex, st, a: (st, OKR()))
+    ms, ds = [], []
+    o.summarize_raw(r"^NaiveDate::mdf$", lambda ex, st, a: (st, Agg("struct", "Mdf", [OpaqueV("mdf bits")])))
+    o.summarize_raw(r"^(naive::internals::)?Mdf::month$", fresh_contract(o, 1, 12, "month", ms))
+    o.summarize_raw(r"^(naive::internals::)?Mdf::day$", fresh_contract(o, 1, 31, "day", ds))
+    y, d, date = c03.date_input(o, "")
+    r = o.call("<NaiveDate as Debug>::fmt", o.ref(date), OpaqueV("formatter"), name="debug")
+    ok = r.disc == 0
+    o.flat = [z3.If(ok, 1, 0)]
+    o.no_panic()
+    H = rec["hundreds"]
+    Dy = [x for x in rec["display"] if x[2] == "i32"]
+    if len(H) != 4 or len(Dy) != 1 or len(ms) != 1 or len(ds) != 1:
+        raise _api.Unsupported(f"writer shape changed: {len(H)} write_hundreds sites, {len(Dy)} signed-year sites")
+    small = z3.And(y.e >= 0, y.e <= 9999)
+    o.reachable("year_10000", y.e == 10000)
+    o.reachable("negative_year", y.e < 0)
+    o.claim("always_ok", ok)
+    o.claim("year_as_pairs_iff_0_to_9999", z3.And(H[0][0] == small, H[1][0] == small, z3.Implies(small, z3.And(H[0][1] == y.e / 100, H[1][1] == y.e % 100)),
+                                                Dy[0][0] == z3.Not(small), z3.Implies(z3.Not(small), Dy[0][1] == y.e)))
+    o.claim("month_and_day_pairs", z3.And(H[2][0], H[2][1] == ms[0], H[3][0], H[3][1] == ds[0]))
